@@ -46,6 +46,21 @@ def run(ctx):
         for f, b, t in fb.call_sites(lambda t: callee(t) == target):
             ctx.inst("C08-chokepoint", "%s<-%s" % (target.rsplit("::", 1)[-1], f.name))
             if f.name not in allowed and not only_from_apply(f.name):
+                if target == bpa.name and f.name.split("::{closure")[0].endswith("native::base::apply"):
+                    # the `apply` builtin entering a builtin's body itself: decided by running it on a real builtin of two parameters
+                    # and lists of 1, 2, 3 elements (does the body see a count its parameters do not allow?)
+                    from . import evaltables as _evt08
+                    verdict, why = _evt08.native_apply_entry(fb)
+                    ctx.oblige(verdict is True)
+                    if verdict is True:
+                        continue
+                    if verdict is None:
+                        ctx.undecided("C08-chokepoint", "%s/caller/%s" % (target.rsplit("::", 1)[-1], f.name), "%s is called from %s; whether the "
+                                      "argument count is checked on that way in could not be followed (%s)" % (target, f.name, why), where_of(f, t))
+                        continue
+                    ctx.report("C08-chokepoint", "%s/caller/%s" % (target.rsplit("::", 1)[-1], f.name),
+                               "%s is called from %s, bypassing apply_procedure's checks: %s" % (target, f.name, why), where_of(f, t))
+                    continue
                 ctx.report("C08-chokepoint", "%s/caller/%s" % (target.rsplit("::", 1)[-1], f.name),
                            "%s is called from %s, bypassing apply_procedure's checks" % (target, f.name), where_of(f, t))
     # indirect calls of builtin bodies: fn(ArgVec)->Result<Value> / dyn Fn(ArgVec, Rc<Env>)
@@ -264,6 +279,9 @@ def run(ctx):
                     continue            # (an index a dominating test shows to be below the length cannot miss)
                 if not any("Vec<values::Value" in str(x) or "[values::Value" in str(x) for x in t.get("argtys", [])[:1]):
                     continue            # (a container that merely holds values somewhere inside, e.g. (name, value) pairs: not vector storage)
+                short_ = f.name.split("::{closure")[0].rsplit("::", 1)[-1]
+                if short_ in ("vector_ref", "vector_set") and evaltables.vector_access_is_safe(fb, short_):
+                    continue            # (the vector table ran this builtin on every index class: no panic, misses are errors)
                 ctx.report("C08-vector", "%s/index-operator" % f.name, "%s indexes a Vec<Value> with the panicking "
                            "operator" % f.name, where_of(f, t))
         for b, i, s in f.stmts():
